@@ -3,6 +3,8 @@ import XL.Model.Ref
 import XL.Model.Cal
 import XL.Model.Eng
 import XL.Generated.Tables
+import XL.Model.Ops
+import XL.Model.FloatNum
 /-!
 # Request dispatcher of the executable model
 -/
@@ -114,11 +116,69 @@ def answerCal (cmd : String) (args : List String) : Option String :=
         | none => "#VALUE!")
   | _, _ => none
 
+/-! values: `n<hex bits>` number, `t<u-string>` text, `b1`/`b0` logical, `_` blank, `x<#ERR>` error -/
+
+def hexVal (c : Char) : Option Nat :=
+  if c.isDigit then some (c.toNat - 48)
+  else if 'a' ≤ c ∧ c ≤ 'f' then some (c.toNat - 87)
+  else if 'A' ≤ c ∧ c ≤ 'F' then some (c.toNat - 55) else none
+
+def parseHex? (s : List Char) : Option Nat :=
+  if s.isEmpty then none else s.foldlM (fun a c => (hexVal c).map (a * 16 + ·)) 0
+
+def parseVal? (s : String) : Option (Val Float) :=
+  match s.toList with
+  | ['_'] => some .blank
+  | 'n' :: h => (parseHex? h).map fun b => .num (Float.ofBits b.toUInt64)
+  | 't' :: r => some (.text (String.ofList (decodeStr (String.ofList r))))
+  | ['b', '1'] => some (.bool true)
+  | ['b', '0'] => some (.bool false)
+  | 'x' :: r => (Err.ofString? (String.ofList r)).map .err
+  | _ => none
+
+def hexDigits (n : Nat) : String := String.ofList (Nat.toDigits 16 n)
+
+def showVal : Val Float → String
+  | .blank => "_"
+  | .num x => if x.isNaN then "nNaN" else "n" ++ hexDigits x.toBits.toNat
+  | .text s => "t" ++ encodeStr s.toList
+  | .bool b => if b then "b1" else "b0"
+  | .err e => "x" ++ e.toString
+
+def parseAOp? : String → Option AOp
+  | "add" => some .add | "sub" => some .sub | "mul" => some .mul | "div" => some .div | "pow" => some .pow | _ => none
+def parseCOp? : String → Option COp
+  | "ge" => some .ge | "le" => some .le | "ne" => some .ne | "lt" => some .lt | "gt" => some .gt | "eq" => some .eq | _ => none
+def parseUOp? : String → Option UOp
+  | "plus" => some .plus | "minus" => some .minus | "percent" => some .percent | _ => none
+
+def answerOps (cmd : String) (args : List String) : Option String :=
+  match cmd, args with
+  | "arith", [o, a, b] => do
+      let op ← parseAOp? o; let x ← parseVal? a; let y ← parseVal? b
+      pure (showVal (arith op x y))
+  | "cmp", [o, a, b] => do
+      let op ← parseCOp? o; let x ← parseVal? a; let y ← parseVal? b
+      pure (showVal (cmp op x y))
+  | "concat", [a, b] => do
+      let x ← parseVal? a; let y ← parseVal? b
+      pure (showVal (concat x y))
+  | "unary", [o, a] => do
+      let op ← parseUOp? o; let x ← parseVal? a
+      pure (showVal (unary op x))
+  | "float", [t] => pure (match floatOfText (String.ofList (decodeStr t)) with
+      | some x => "n" ++ hexDigits x.toBits.toNat
+      | none => "none")
+  | "display", [a] => do
+      let x ← parseVal? a
+      pure ("t" ++ encodeStr (displayVal x).toList)
+  | _, _ => none
+
 def answer (line : String) : String :=
   match (line.trimAscii.toString.splitOn " ").filter (· ≠ "") with
   | [] => "bad-request"
   | cmd :: args =>
-    match ((answerRect cmd args).orElse (fun _ => answerRef cmd args)).orElse (fun _ => answerCal cmd args) with
+    match (((answerRect cmd args).orElse (fun _ => answerRef cmd args)).orElse (fun _ => answerCal cmd args)).orElse (fun _ => answerOps cmd args) with
     | some r => r
     | none => "bad-request"
 
